@@ -387,9 +387,6 @@ def suite_events(chk, module):
     shutil.rmtree(out, ignore_errors=True)
     env = dict(os.environ, BCVERIF_SUITE_OUT=out, PYTHONPATH=os.path.join(VERIF, "harness"), PYTHONDONTWRITEBYTECODE="1")
     p = subprocess.run([sys.executable, "-m", "pytest", "-q", "-p", "no:cacheprovider", "-p", "bcverif.suite_tracer", "-W",
-                        "ignore", "-x", "--co", "-q"], cwd=REPO, env=env, stdout=subprocess.PIPE, stderr=subprocess.STDOUT,
-                       text=True, timeout=900) if False else None
-    p = subprocess.run([sys.executable, "-m", "pytest", "-q", "-p", "no:cacheprovider", "-p", "bcverif.suite_tracer", "-W",
                         "ignore"], cwd=REPO, env=env, stdout=subprocess.PIPE, stderr=subprocess.STDOUT, text=True,
                        timeout=1800)
     tail = p.stdout.strip().splitlines()[-1] if p.stdout.strip() else ""
